@@ -9,6 +9,7 @@ mod decode;
 mod env;
 mod framework;
 mod gen;
+mod grammar;
 mod panics;
 mod pipeline;
 mod props;
@@ -46,6 +47,13 @@ fn main() {
             let idx: u64 = args.get(4).and_then(|s| s.parse().ok()).unwrap_or(0);
             let seed: u64 = args.get(5).and_then(|s| s.parse().ok()).unwrap_or(1);
             let mut rng = rng::Rng::for_case(seed, &id, &phase, idx);
+            if id == "C12" && phase == "grammar" {
+                match props::c12::grammar() {
+                    Ok(g) => println!("{}", g.program(&mut rng, 6 + (idx % 7) as u32)),
+                    Err(e) => eprintln!("{e}"),
+                }
+                return;
+            }
             let cfg = gen::build::Cfg::default();
             eprintln!("generating...");
             let g = gen::build::generate(&mut rng, &cfg);
